@@ -12,6 +12,7 @@ inputs; each path's outcome is compared with the XSD oracle.  Anything unclassif
 from engine.rulekit import inline as I
 from engine.rulekit import mir as M
 from engine.rulekit import pp
+from engine.rulekit import scans
 
 TRAIT = "model::helpers_content::restrictions::CheckRestrictions"
 NUMERIC = ("min_inclusive", "max_inclusive", "min_exclusive", "max_exclusive")
@@ -1299,6 +1300,38 @@ REQUIRED_CARRIERS = ["i8", "u8", "i16", "u16", "i32", "u32", "i64", "u64", "f32"
                      "std::string::String", "option", "vec"]
 
 
+def rule_text_carrier_domain(ck, F):
+    """A simple type that restricts a builtin other than string is written as `struct T { value: String }`; its facets are checked by
+    the String carrier. Where that carrier reads the text as an integer (`parse::<i128>`) and the builtin table maps decimal / double /
+    float to a float type, a value of such a type with a fraction or exponent is refused as soon as a numeric facet is present,
+    although it meets the facet."""
+    from rules import c02 as C02
+    from rules import templates as T
+    int_parse = None
+    for b in scans.bodies(F.lib):
+        if "std::string::String as" in b["path"] and "CheckRestrictions" in b["path"] and not b.get("closure"):
+            B = M.Body(b)
+            for bb, t in B.calls():
+                f = t.get("func") or {}
+                if (f.get("fn_path") or "").endswith("str>::parse") and (f.get("gargs") or [""])[0] in ("i8", "i16", "i32", "i64", "i128", "u8", "u16", "u32", "u64", "u128", "isize", "usize"):
+                    int_parse = (B.term(bb).get("sp"), f["gargs"][0])
+    table, _fall, _site = C02.builtin_table(F)
+    floats = sorted(k for k, v in (table or {}).items() if v and v.rsplit("::", 1)[-1] in ("F32", "F64"))
+    X = T.extractor(F)
+    text_carried = any(ev.kind == "emit" and ev.skeleton().strip() == "pub value: String" for evs in X.events.values() for ev in evs)
+    if int_parse and floats and text_carried:
+        ck.violation("R8", "text-carrier:decimal", int_parse[0],
+                     f"a simple type over {', '.join('xs:' + f_ for f_ in floats)} is written as `value: String` and checked by the String carrier, which reads the "
+                     f"text with `parse::<{int_parse[1]}>` once a numeric facet is present: \"12.50\" under `minInclusive=0 maxInclusive=100` is refused "
+                     f"(\"invalid digit found in string\") although it meets both facets")
+    else:
+        ck.ok("R8", "text-carrier:decimal", "-", "no decimal / float type is carried as text and checked as an integer")
+    # which types get a numeric facet at all is decided where the facets are written: a bound is the facet's text read as one integer
+    # (C07.R6 `partial-text`, kept: a bound made from the part of `0.00` in front of the point puts decimal types under the integer check)
+    from rules import c04 as C04
+    T.c07_template_rules(C04._Sub(ck, "R8", lambda key: "partial-text" in key), F)
+
+
 def run(ck, F):
     ck.explanation = (
         "Static path enumeration over the MIR control-flow graphs of every `impl CheckRestrictions` of the emitted helper "
@@ -1320,8 +1353,11 @@ def run(ck, F):
     ck.rule("R4", "f32/f64/bool carriers have no rejecting path")
     ck.rule("R5", "no narrowing: value and bounds reach comparisons through lossless steps only")
     ck.rule("R6", "length facets are compared with the character count (chars().count()), not the byte length")
+    ck.rule("R8", "the value space of a text carrier: where values of a decimal / float type are carried as text, the numeric facets of the text "
+                  "carrier are decided on decimals, not on integers only")
     ck.rule("R7", "Option/Vec/MultiRef and forwarding impls return exactly the delegated result, for the same restriction "
                   "set, over every element")
+    rule_text_carrier_domain(ck, F)
     impls = [i for i in F.lib.items["impls"] if i.get("trait") == TRAIT]
     ck.count("impls", len(impls))
     seen = set()
